@@ -1063,6 +1063,17 @@ impl<const M: usize> Sim<M> {
                 rep.violate("C06", "C06/reset-of-memoryless-arena-not-a-noop", String::new());
             }
         } else {
+            // reset keeps exactly the newest chunk (C03: "all chunks except the one kept")
+            match (self.chunks.len(), newest.as_ref()) {
+                (0, _) => {
+                    rep.violate("C03", "C03/reset/returned-the-chunk-it-should-keep", format!("the arena held memory before reset and holds none after it ({} blocks returned, limit {:?})", self.released, self.limit));
+                    rep.violate("C06", "C06/reset-kept-no-block", format!("limit {:?}", self.limit));
+                }
+                (1, Some(n)) if self.chunks[0].base != n.base => {
+                    rep.violate("C06", "C06/reset-kept-an-older-chunk-instead-of-the-newest", format!("kept {:#x} (size {}), newest was {:#x} (size {})", self.chunks[0].base, self.chunks[0].size, n.base, n.size));
+                }
+                _ => {}
+            }
             if self.chunks.len() > 1 {
                 rep.violate("C06", "C06/holds-more-than-one-block-after-reset", format!("{}", self.chunks.len()));
                 rep.violate("C03", "C03/reset/did-not-return-all-chunks-but-one", format!("{} blocks still held after reset ({} returned by it)", self.chunks.len(), self.released));
